@@ -231,24 +231,44 @@ def check_adapter(ctx):
         # threshold condition
         conds = [c for c in p.conds if c.kind == 'test']
         thr = None
+        def sized(x):
+            """(N -> size, subject) for len(A) / len(A[k:]) / A[k:] where N
+            is len(A)"""
+            if isinstance(x, ast.Call) and U(x.func) == 'len' and len(
+                    x.args) == 1:
+                x = x.args[0]
+            elif not isinstance(x, ast.Subscript):
+                return None
+            if isinstance(x, ast.Subscript) and isinstance(
+                    x.slice, ast.Slice) and x.slice.upper is None and \
+                    x.slice.step is None and is_const(x.slice.lower) and \
+                    isinstance(x.slice.lower.value, int) and \
+                    x.slice.lower.value >= 0:
+                k0 = x.slice.lower.value
+                return (lambda n, k0=k0: max(0, n - k0)), U(x.value)
+            if isinstance(x, ast.Subscript):
+                return None
+            return (lambda n: n), U(x)
+        OPS = {ast.Gt: lambda a, b: a > b, ast.GtE: lambda a, b: a >= b,
+               ast.Lt: lambda a, b: a < b, ast.LtE: lambda a, b: a <= b,
+               ast.Eq: lambda a, b: a == b, ast.NotEq: lambda a, b: a != b}
         for c in conds:
             ce = t.expand(c.expr)
-            if isinstance(ce, ast.Compare) and isinstance(
-                    ce.left, ast.Call) and U(ce.left.func) == 'len' and \
-                    is_const(ce.comparators[0]):
+            if isinstance(ce, ast.Compare) and len(ce.ops) == 1 and \
+                    type(ce.ops[0]) in OPS and is_const(
+                        ce.comparators[0]) and sized(ce.left) and \
+                    isinstance(ce.left, ast.Call):
+                size, subj = sized(ce.left)
                 n0 = ce.comparators[0].value
-                op = type(ce.ops[0])
-                subj = U(ce.left.args[0])
-
-                def holds(k, op=op, n0=n0):
-                    return {ast.Gt: k > n0, ast.GtE: k >= n0,
-                            ast.Lt: k < n0, ast.LtE: k <= n0,
-                            ast.Eq: k == n0, ast.NotEq: k != n0}[op](
-                                ) if False else {
-                        ast.Gt: k > n0, ast.GtE: k >= n0, ast.Lt: k < n0,
-                        ast.LtE: k <= n0, ast.Eq: k == n0,
-                        ast.NotEq: k != n0}[op]
-                thr = (holds, c.pol, subj)
+                op = OPS[type(ce.ops[0])]
+                thr = ((lambda k, op=op, n0=n0, size=size:
+                        op(size(k), n0)), c.pol, subj)
+            elif sized(ce) and (isinstance(ce, ast.Subscript) or (
+                    isinstance(ce, ast.Call)
+                    and isinstance(ce.args[0], ast.Subscript))):
+                # truthiness of A[k:] / len(A[k:])
+                size, subj = sized(ce)
+                thr = ((lambda k, size=size: size(k) > 0), c.pol, subj)
         rows[tuple(args)] = (thr, kws, okshape, p)
     want4 = ('target', 'creds', 'enforcer')
     want5 = ('target', 'creds', 'enforcer', 'current_rule')
